@@ -2,3 +2,8 @@
 #![allow(missing_docs, unused_imports, dead_code)]
 use super::*;
 pub use super::tlvs::vh_messages_tlvs as tlvs;
+
+// ---- statime_h (C44/C45): the CSPTP message classifier as the server/client see it
+pub fn csptp_parse_kind(buffer: &[u8]) -> Option<(bool, bool)> {
+    CsptpMessage::deserialize(buffer).ok().map(|m| (m.is_request(), m.is_response()))
+}
